@@ -1,5 +1,263 @@
-"""C07 layer 4 — placeholder, filled below."""
-def run_layer(ctx):
-    pass
+"""
+C07 layer 4 (shared with C08) — the CLI gate of bin/martinize2.
+
+Every run of a small run alphabet is executed through the in-process driver (mc/cli.py: the
+script's own entry()) in a private directory pre-populated with files that carry the names of the
+outputs.  Oracle: leftover = C08's reference formula applied to the records the run logged;
+leftover > 0  =>  exit status != 0 and the directory is byte-identical (requested -write-graph dump aside);
+leftover == 0 =>  exit 0, outputs present with new content, every pre-existing file intact under '#name.1#'.
+A covering subset of the runs is repeated as real sub-processes and must agree (exit status,
+directory listing, file bodies) with the in-process run of the same argument list.
+"""
+import itertools
+import logging
+import os
+import shutil
+import tempfile
+
+from mc import common, cli
+from mc.common import Acc
+from props import c08
+
+GATE_TEXT = 'warnings were encountered after accounting'
+ALA5 = os.path.join(common.REPO, 'vermouth', 'tests', 'data', 'ala5.pdb')
+
+
+def input_text(kind):
+    with open(ALA5) as handle:
+        lines = handle.read().splitlines()
+    if kind.startswith('alt'):
+        n = int(kind[3:])
+        out = []
+        for line in lines:
+            out.append(line)
+            if (line.startswith('ATOM') and line[12:16].strip() == 'CB'
+                    and int(line[22:26]) in list(range(2, 2 + n))):
+                out.append(line[:16] + 'B' + line[17:])
+        lines = out
+    return '\n'.join(lines) + '\n'
+
+
+SWITCHES = {
+    'none': [], 'scfix': ['-scfix'], 'ed': ['-ed'], 'collagen': ['-collagen'],
+    'scfix+ed': ['-scfix', '-ed'], 'ed+collagen': ['-ed', '-collagen'],
+}
+MAXWARN = {
+    'absent': [],
+    '0': [['0']], '1': [['1']], '5': [['5']],
+    'alt': [['pdb-alternate']], 'alt:1': [['pdb-alternate:1']], 'alt:2': [['pdb-alternate:2']],
+    'general': [['general']], 'feature:1': [['missing-feature:1']],
+    'other-type': [['unknown-residue']],
+    '5 then 1': [['5'], ['1']], '1 then 5': [['1'], ['5']],
+    'alt:2 alt:1': [['pdb-alternate:2', 'pdb-alternate:1']],
+    'alt:1 + general': [['pdb-alternate:1', 'general']],
+    'feature:2 then feature:1': [['missing-feature:2'], ['missing-feature:1']],
+}
+OUTPUTS = {'x': ['-x', 'cg.pdb'], 'x+o': ['-x', 'cg.pdb', '-o', 'topol.top']}
+EXTRA = {'none': [], 'graph': ['-write-graph', 'graph.pdb']}
+
+OLD = {'cg.pdb': 'OLD cg.pdb\n', 'topol.top': 'OLD topol.top\n', 'molecule_0.itp': 'OLD molecule_0.itp\n',
+       'unrelated.txt': 'keep me\n'}
+
+
+def argv_of(run):
+    inp, sw, mw, outp, extra = run
+    argv = ['-f', 'in.pdb'] + OUTPUTS[outp] + SWITCHES[sw] + EXTRA[extra]
+    for group in MAXWARN[mw]:
+        argv += ['-maxwarn'] + group
+    return argv
+
+
+def listing(directory):
+    out = {}
+    for base, _, files in os.walk(directory):
+        for name in files:
+            full = os.path.join(base, name)
+            with open(full, 'rb') as handle:
+                out[os.path.relpath(full, directory)] = handle.read().decode('utf8', 'replace')
+    return out
+
+
+def prepare(base, run, tag):
+    work = os.path.join(base, tag)
+    os.makedirs(work)
+    with open(os.path.join(work, 'in.pdb'), 'w') as handle:
+        handle.write(input_text(run[0]))
+    for name, text in OLD.items():
+        with open(os.path.join(work, name), 'w') as handle:
+            handle.write(text)
+    return work
+
+
+def is_dump(name):
+    base = os.path.basename(name)
+    return base == 'graph.pdb' or (base.startswith('#graph.pdb.') and base.endswith('#'))
+
+
+def expected_leftover(records, run):
+    counts = {}
+    for level, typ, message in records:
+        if level < logging.WARNING or GATE_TEXT in message:
+            continue
+        counts.setdefault(level, {})
+        counts[level][typ] = counts[level].get(typ, 0) + 1
+    script = cli.load_script()
+    specs = []
+    for group in MAXWARN[run[2]]:
+        for item in group:
+            specs.append(c08.ref_maxwarn(item))
+    return c08.reference(counts, specs), counts
+
+
+class _Collector(logging.Handler):
+    def __init__(self):
+        super().__init__(level=1)
+        self.records = []
+
+    def emit(self, record):
+        try:
+            message = str(record.msg)
+        except Exception:
+            message = ''
+        self.records.append((record.levelno, getattr(record, 'type', 'general'), message))
+
+
+def one_run(base, run, acc, tag='r', prop='C07'):
+    case = {'layer': 'cli', 'run': list(run), 'argv': argv_of(run)}
+    work = prepare(base, run, tag)
+    before = listing(work)
+    collector = _Collector()
+    logger = logging.getLogger('vermouth')
+    logger.addHandler(collector)
+    try:
+        res = cli.run_inprocess(argv_of(run), work)
+    finally:
+        logger.removeHandler(collector)
+    after = listing(work)
+    leftover, counts = expected_leftover(collector.records, run)
+    n_warn = sum(sum(v.values()) for v in counts.values())
+    outputs = ['cg.pdb'] + (['topol.top', 'molecule_0.itp'] if run[3] == 'x+o' else [])
+    acc.case(nontrivial=n_warn > 0, outcome=('cli', res['exit'], leftover > 0, sorted(after)),
+             sample=dict(case, exit=res['exit'], warnings={str(k): v for k, v in counts.items()}, leftover_expected=leftover,
+                         files=sorted(after)) if acc.states % 97 == 0 else None)
+    sig = None
+    if leftover > 0:
+        changed = sorted(k for k in set(before) | set(after) if before.get(k) != after.get(k) and not is_dump(k))
+        if res['exit'] == 0:
+            sig, desc = 'cli:unwaived-warnings-exit-0', 'exit 0 although %d warning(s) are left after -maxwarn (%r)' % (leftover, counts)
+        elif changed:
+            sig, desc = 'cli:output-despite-warnings', 'exit %d with %d warning(s) left, but files changed: %r' % (res['exit'], leftover, changed)
+    else:
+        if res['exit'] != 0:
+            sig, desc = 'cli:refused-although-covered', 'exit %d although every warning is covered (%r, -maxwarn %s)\n%s' % (
+                res['exit'], counts, run[2], res['stderr'][-600:])
+        else:
+            missing = [o for o in outputs if o not in after or after[o] == OLD.get(o)]
+            lost = [k for k, v in before.items() if k != 'in.pdb' and after.get(k) != v
+                    and after.get(os.path.join(os.path.dirname(k), '#%s.1#' % os.path.basename(k))) != v]
+            if missing:
+                sig, desc = 'cli:output-missing', 'exit 0 but outputs %r were not written' % (missing,)
+            elif lost:
+                sig, desc = 'cli:existing-file-lost', 'pre-existing %r neither intact nor backed up as #name.1#; directory %r' % (lost, sorted(after))
+    if sig:
+        acc.violation(sig, '%s: %s' % (' '.join(argv_of(run)), desc), case)
+    return res, after
+
+
+def all_runs(tier, focus):
+    if focus == 'maxwarn':      # C08's slice: every -maxwarn form against every warning mix
+        inputs, switches, outs, extras = ['clean', 'alt1', 'alt2'], ['none', 'scfix', 'ed+collagen'], ['x'], ['none']
+        maxwarns = list(MAXWARN)
+    else:
+        inputs = ['clean', 'alt1', 'alt2']
+        switches = list(SWITCHES)
+        outs, extras = list(OUTPUTS), list(EXTRA)
+        maxwarns = list(MAXWARN)
+        if tier == 'quick':
+            switches = ['none', 'scfix', 'ed', 'ed+collagen']
+            maxwarns = ['absent', '1', '5', 'alt', 'alt:1', 'alt:2', 'general', 'other-type', '5 then 1', 'alt:2 alt:1']
+    return list(itertools.product(inputs, switches, maxwarns, outs, extras))
+
+
+def work(task):
+    common.bind_repo()
+    runs, prop = task
+    acc = Acc()
+    base = tempfile.mkdtemp(prefix='verif_cli_', dir='/dev/shm' if os.path.isdir('/dev/shm') else None)
+    try:
+        for idx, run in enumerate(runs):
+            one_run(base, run, acc, tag='r%d' % idx, prop=prop)
+            shutil.rmtree(os.path.join(base, 'r%d' % idx), ignore_errors=True)
+    finally:
+        shutil.rmtree(base, ignore_errors=True)
+    return acc
+
+
+def bind_work(run):
+    """One run in-process twice and once as a real sub-process; all three must agree."""
+    common.bind_repo()
+    acc = Acc()
+    base = tempfile.mkdtemp(prefix='verif_clib_', dir='/dev/shm' if os.path.isdir('/dev/shm') else None)
+    try:
+        dummy = Acc()
+        res1, after1 = one_run(base, run, dummy, tag='a')
+        res2, after2 = one_run(base, run, dummy, tag='b')
+        work_dir = prepare(base, run, 'c')
+        sub = cli.run_subprocess(argv_of(run), work_dir)
+        after3 = listing(work_dir)
+        acc.case(nontrivial=True, outcome=('bind', sub['exit'], sorted(after3)),
+                 sample={'layer': 'cli-binding', 'argv': argv_of(run), 'exit': sub['exit'], 'files': sorted(after3)})
+        if (res1['exit'], after1) != (res2['exit'], after2):
+            raise common.HarnessError('in-process driver is not repeatable for %r' % (argv_of(run),))
+        if (res1['exit'], after1) != (sub['exit'], after3):
+            diff = sorted(k for k in set(after1) | set(after3) if after1.get(k) != after3.get(k))
+            raise common.HarnessError('in-process driver disagrees with the real program for %r: exit %r vs %r, files differing %r\n%s' % (
+                argv_of(run), res1['exit'], sub['exit'], diff, sub['stderr'][-800:]))
+    finally:
+        shutil.rmtree(base, ignore_errors=True)
+    return acc
+
+
+def covering_subset(runs, n):
+    """Greedy cover: every value of every dimension at least once, then fill up to n."""
+    chosen, seen = [], set()
+    for run in runs:
+        vals = {(i, v) for i, v in enumerate(run)}
+        if not vals <= seen:
+            chosen.append(run)
+            seen |= vals
+    step = max(1, len(runs) // max(1, n))
+    for run in runs[::step]:
+        if len(chosen) >= n:
+            break
+        if run not in chosen:
+            chosen.append(run)
+    return chosen[:max(n, 1)]
+
+
+def run_layer(ctx, focus='gate', name='cli-gate'):
+    runs = all_runs(ctx.tier, focus)
+    acc = Acc()
+    tasks = [(chunk, ctx.pid) for chunk in common.chunked(runs, max(1, -(-len(runs) // common.NPROC)))]
+    for part in common.pmap(work, tasks):
+        acc += part
+    acc.extra['cli_runs'] = len(runs)
+    ctx.layer(name, acc)
+    nsub = (8 if ctx.quick else 32) if focus == 'gate' else (4 if ctx.quick else 12)
+    subset = covering_subset(runs, nsub)
+    # prefer warning-producing runs for the binding
+    acc = Acc()
+    for part in common.pmap(bind_work, subset):
+        acc += part
+    ctx.layer(name + '-subprocess-binding', acc)
+
+
 def replay(case):
-    return []
+    common.bind_repo()
+    acc = Acc()
+    base = tempfile.mkdtemp(prefix='verif_clir_')
+    try:
+        one_run(base, tuple(case['run']), acc)
+    finally:
+        shutil.rmtree(base, ignore_errors=True)
+    return [(s, d) for s, d, _ in acc.violations]
